@@ -435,8 +435,8 @@ class C09:
         if w[0] != "ok":
             raise InternalError("real save failed: " + " ".join(w)[:100])
         ts0, ts1, f = int(w[1]), int(w[2]), unhx(w[3])
-        if os.environ.get("VERIF_C09_INJECT") == "flip" and len(f) > 60:      # self-test of the violation path only
-            f = f[:40] + bytes([f[40] ^ 0x01]) + f[41:]
+        if os.environ.get("VERIF_C09_INJECT") == "flip" and len(f) > 60:      # self-test of the violation path only: damage the last content byte
+            f = f[:-10] + bytes([f[-10] ^ 0x01]) + f[-9:]
         if case.get("down"):
             self.iask("sleep %d" % case["down"])
         w = self.iask("load " + hx(f)).split(" ")
